@@ -348,6 +348,7 @@ func (c13) Check(c *core.Case, env *core.Env, res zzsim.Result, v *core.Verdict)
 	}
 	type connWire struct {
 		regs      [2][]regReq
+		unregs    [2][]int64 // unregister requests: seq at which the client wrote them
 		lateEvent [2]map[int32]int64 // event n -> seq of the unregister ack it followed
 		evCount   [2]map[int32]int   // how often event n was sent on this connection
 	}
@@ -388,6 +389,8 @@ func (c13) Check(c *core.Case, env *core.Env, res zzsim.Result, v *core.Verdict)
 				if f.Action == 0 {
 					rq.idx = len(cw.regs[i])
 					cw.regs[i] = append(cw.regs[i], regReq{reqSeq: c13seqOf(c2sMarks, f.End), replyRead: inf, replyWrite: inf})
+				} else {
+					cw.unregs[i] = append(cw.unregs[i], c13seqOf(c2sMarks, f.End))
 				}
 				byID[f.ID] = rq
 			}
@@ -428,10 +431,12 @@ func (c13) Check(c *core.Case, env *core.Env, res zzsim.Result, v *core.Verdict)
 					continue
 				}
 				evSeq := c13seqOf(s2cMarks, f.End)
-				// unless a new registration request was already on its way
+				// unless a registration request was on its way (written by the
+				// client, not yet answered): the server may already have
+				// processed it
 				pendingReg := false
 				for _, r := range cw.regs[i] {
-					if r.reqSeq > zeroAt[i] && r.reqSeq < evSeq {
+					if r.reqSeq < evSeq && r.replyWrite > evSeq {
 						pendingReg = true
 					}
 				}
@@ -549,13 +554,20 @@ func (c13) Check(c *core.Case, env *core.Env, res zzsim.Result, v *core.Verdict)
 			// was the registration this subscriber relies on confirmed when it was acknowledged?
 			cause := "other"
 			if cw != nil {
-				var cover *regReq
-				for i := range cw.regs[s.sig] {
-					if r := &cw.regs[s.sig][i]; r.reqSeq < s.ackRet {
-						cover = r
+				// registrations confirmed to the client minus removals it
+				// had requested, at the moment the subscriber was acknowledged
+				active := 0
+				for _, r := range cw.regs[s.sig] {
+					if r.ok && r.replyRead < s.ackRet {
+						active++
 					}
 				}
-				if cover == nil || cover.replyRead > s.ackRet {
+				for _, u := range cw.unregs[s.sig] {
+					if u < s.ackRet {
+						active--
+					}
+				}
+				if active < 1 {
 					cause = "acked-before-registered"
 				}
 			}
